@@ -56,6 +56,9 @@ impl Prop for C02 {
         let mut gcfg = GenCfg::order_insensitive();
         if cfg.tier == Tier::Thorough {
             gcfg.max_stanzas = 8;
+            if gcfg.deepen(rng) {
+                out.feat("deep_bounds(depth<=6,stanzas<=12)");
+            }
         }
         // out-of-range `$n` is part of the property ("invalid regex capture")
         gcfg.fault_pct = 15;
